@@ -66,7 +66,7 @@ JUDGES = {"derive": judge_derive}
 
 def shards(tier, seed):
     T = tier == "thorough"
-    return [{"name": "derive-%d" % i, "count": 2500 if T else 150} for i in range(16)]
+    return [{"name": "derive-%d" % i, "count": 8000 if T else 700} for i in range(16)]
 
 
 def rand_index(rng):
